@@ -129,6 +129,10 @@ class Gen:
             return ["setg"]
         if k < 55:
             return ["lam", self.id()]
+        if k < 57 and not ctx["in_catch_fin"] and ctx["fin_level"] == 0:
+            # a function that calls ITSELF from inside its own try block, three activations deep; each activation then meets a
+            # fault point inside its try block and has its own catch block
+            return ["rectry", self.id(), self.id(), self.site()]
         if k < 60:
             return ["evg", self.id()]
         if k < 62 and ctx.get("clocals"):
@@ -333,6 +337,20 @@ def gen_nest(seed, feats=None):
         else:
             body = [["try", pads + [["chk", g.site()], ["throw", g.id(), "s"]], None, [["ev", g.id()]]], ["ev", g.id()]]
         edge = True
+    if rng.chance(1.0 / 80):
+        # a loop whose backward jump is within a few bytes of the largest distance its 16-bit operand can express: either the
+        # compiler refuses the program or the loop runs as written
+        a = rng.range(32755, 32768)
+        pads = [["pad", a]] + ([["pad1"]] if rng.chance(0.5) else [])
+        fi = len(g.funcs)
+        kind = rng.choice(["for", "while"])
+        wid = g.id() if kind == "while" else None
+        if wid is not None:
+            g.whiles.append(wid)
+        body = [["loop", kind, 2, pads + [["ev", g.id()]], wid], ["ev", g.id()]]
+        g.funcs.append({"how": "fn", "body": body, "mod": None})
+        main = [["try", [["call", fi, g.id()], ["ev", g.id()]], [["evexc", g.id()]], None]] + main
+        edge = True
         g.funcs.append({"how": "fn", "body": body, "mod": None})
         main = [["try", [["call", fi, g.id()], ["ev", g.id()]], [["evexc", g.id()]], None]] + main
     funcs = [f if f is not None else {"how": "fn", "body": [], "mod": None} for f in g.funcs]
@@ -441,6 +459,12 @@ def render_all(ir):
             emit(" ".join(["nil;"] * st[1]), ind)
         elif k == "pad1":
             emit("!nil;", ind)      # three bytes: changes the parity of the padding
+        elif k == "rectry":
+            emit("{", ind)
+            emit("fn rt%d(n) { try { print((\"ev\", %d, n)); if n > 0 { rt%d(n - 1); } fail(print((\"chk\", \"%s\"))); print((\"ev\", %d, n, \"ok\")); } catch erec { print((\"ev\", %d, n, type(erec))); } return n; }" % (
+                st[1], st[1], st[1], st[3], st[2], st[2]), ind + 1)
+            emit("rt%d(2);" % st[1], ind + 1)
+            emit("}", ind)
         elif k == "lam":
             # a lambda expression compiled in the middle of whatever block this is (a nested function for the compiler)
             emit('print(("ev", %d, (|q| { return q + 1; })(%d)));' % (st[1], st[1]), ind)
@@ -773,6 +797,16 @@ def model(ir, tape, faults):
             ev.append([num(st[1]), num(env["locals"][st[2]][0])])
         elif k in ("pad", "pad1"):
             pass
+        elif k == "rectry":
+            probes.inc("recursion_through_a_try_block")
+            for n_ in (2, 1, 0):
+                ev.append([num(st[1]), num(n_)])
+            for n_ in (0, 1, 2):
+                try:
+                    stmt(["chk", st[3]], env)
+                    ev.append([num(st[2]), num(n_), s("ok")])
+                except Thrown as t_:
+                    ev.append([num(st[2]), num(n_), t_.enc_type])
         elif k == "lam":
             ev.append([num(st[1]), num(st[1] + 1)])
         elif k == "setg":
